@@ -104,6 +104,22 @@ int sem_trywait(sem_t* s) {
   }
   REAL(int, sem_trywait, sem_t*) return real(s);
 }
+int sem_wait(sem_t* s) {
+  if (scripted) {
+    S.sem_calls++;
+    if (S.sem_calls <= S.sem_eintr) { errno = EINTR; return -1; }
+    errno = S.sem_errno; return S.sem_r;
+  }
+  REAL(int, sem_wait, sem_t*) return real(s);
+}
+int nanosleep(const struct timespec* req, struct timespec* rem) {
+  if (scripted) {
+    S.sem_calls++;
+    if (S.sem_calls <= S.sem_eintr) { errno = EINTR; return -1; }
+    errno = S.sem_errno; return S.sem_r;
+  }
+  return (int) syscall(SYS_nanosleep, req, rem);
+}
 int pthread_condattr_setclock(pthread_condattr_t* a, clockid_t c) {
   cond_clock = (int) c;
   REAL(int, pthread_condattr_setclock, pthread_condattr_t*, clockid_t) return real(a, c);
@@ -188,6 +204,11 @@ int main(void) {
       if (S.sem_r == -1 && S.sem_errno == EINTR) { printf("bad-op\n"); continue; }
       ab = GUARDED(rc = uv_sem_trywait(&sem));
       print_out(ab, rc); printf(" calls %d\n", S.sem_calls);
+    } else if ((!strcmp(w[0], "semwait") || !strcmp(w[0], "sleep")) && n == 4 && is_nat(w[1]) && is_int(w[2]) && is_int(w[3])) {
+      S.sem_eintr = atoi(w[1]); S.sem_r = atoi(w[2]); S.sem_errno = atoi(w[3]); S.sem_calls = 0;
+      if (S.sem_r == -1 && S.sem_errno == EINTR) { printf("bad-op\n"); continue; }
+      if (w[0][1] == 'e') ab = GUARDED(uv_sem_wait(&sem)); else ab = GUARDED(uv_sleep(7));
+      print_out(ab, 0); printf(" calls %d\n", S.sem_calls);
     } else if (!strcmp(w[0], "timedwait") && n == 5 && is_nat(w[1]) && is_nat(w[2]) && is_nat(w[3]) && is_int(w[4])) {
       S.now_sec = strtoull(w[1], 0, 10); S.now_nsec = strtoull(w[2], 0, 10);
       uint64_t tmo = strtoull(w[3], 0, 10); S.code = atoi(w[4]); S.timedwait_called = 0; S.clk_asked = -1;
@@ -397,6 +418,64 @@ static void t_sem(int k) {
   uv_sem_destroy(&SEM);
 }
 
+/* ---- blocking waits interrupted by a signal whose handler has no SA_RESTART */
+static atomic_int sig_handled, through; static uv_sem_t ISEM; static int intr_pred; static uv_cond_t CV;
+static void on_usr1(int sig) { (void) sig; atomic_fetch_add(&sig_handled, 1); }
+static void sem_intr_waiter(void* a) { (void) a; uv_sem_wait(&ISEM); atomic_fetch_add(&through, 1); }
+static void mutex_intr_waiter(void* a) {
+  (void) a; uv_mutex_lock(&M); atomic_fetch_add(&through, 1);
+  int v = atomic_fetch_add(&inside, 1) + 1; note_max(&max_inside, v); sched_yield(); atomic_fetch_sub(&inside, 1);
+  uv_mutex_unlock(&M);
+}
+static void cond_intr_waiter(void* a) {
+  (void) a; uv_mutex_lock(&M);
+  while (!intr_pred) {
+    uv_cond_wait(&CV, &M);
+    int v = atomic_fetch_add(&inside, 1) + 1; note_max(&max_inside, v); sched_yield(); atomic_fetch_sub(&inside, 1);
+  }
+  atomic_fetch_add(&through, 1);
+  uv_mutex_unlock(&M);
+}
+static void bombard(uv_thread_t* t, int n, int volleys) {
+  for (int k = 0; k < volleys; k++) { for (int i = 0; i < n; i++) pthread_kill(t[i], SIGUSR1); uv_sleep(2); }
+}
+static void t_intr(const char* what) {
+  struct sigaction sa, old; memset(&sa, 0, sizeof sa); sa.sa_handler = on_usr1; sa.sa_flags = 0;  /* no SA_RESTART */
+  sigemptyset(&sa.sa_mask); sigaction(SIGUSR1, &sa, &old);
+  reset(); atomic_store(&sig_handled, 0); atomic_store(&through, 0); intr_pred = 0;
+  uv_thread_t t[MAXT]; int before, after, extra = 0;
+  if (!strcmp(what, "sem-intr")) {
+    uv_sem_init(&ISEM, 0);
+    for (int i = 0; i < NT; i++) uv_thread_create(&t[i], sem_intr_waiter, NULL);
+    uv_sleep(20); bombard(t, NT, ROUNDS); uv_sleep(10);
+    before = atomic_load(&through);
+    for (int i = 0; i < NT; i++) uv_sem_post(&ISEM);
+    for (int i = 0; i < NT; i++) uv_thread_join(&t[i]);
+    after = atomic_load(&through); extra = uv_sem_trywait(&ISEM);   /* surplus token left? */
+    uv_sem_destroy(&ISEM);
+  } else if (!strcmp(what, "mutex-intr")) {
+    uv_mutex_init(&M); uv_mutex_lock(&M);
+    for (int i = 0; i < NT; i++) uv_thread_create(&t[i], mutex_intr_waiter, NULL);
+    uv_sleep(20); bombard(t, NT, ROUNDS); uv_sleep(10);
+    before = atomic_load(&through);
+    uv_mutex_unlock(&M);
+    for (int i = 0; i < NT; i++) uv_thread_join(&t[i]);
+    after = atomic_load(&through); extra = atomic_load(&max_inside);
+    uv_mutex_destroy(&M);
+  } else {
+    uv_mutex_init(&M); uv_cond_init(&CV);
+    for (int i = 0; i < NT; i++) uv_thread_create(&t[i], cond_intr_waiter, NULL);
+    uv_sleep(20); bombard(t, NT, ROUNDS); uv_sleep(10);
+    before = atomic_load(&through);
+    uv_mutex_lock(&M); intr_pred = 1; uv_cond_broadcast(&CV); uv_mutex_unlock(&M);
+    for (int i = 0; i < NT; i++) uv_thread_join(&t[i]);
+    after = atomic_load(&through); extra = atomic_load(&max_inside);
+    uv_cond_destroy(&CV); uv_mutex_destroy(&M);
+  }
+  sigaction(SIGUSR1, &old, NULL);
+  printf("%s waiters %d handled %d through_before %d through_after %d extra %d\n", what, NT, atomic_load(&sig_handled), before, after, extra);
+}
+
 /* ---- barrier */
 static uv_barrier_t BAR; static atomic_int* arrived; static atomic_int* serials; static atomic_int early; static int BARN;
 static void barrier_worker(void* a) {
@@ -575,6 +654,7 @@ int main(void) {
       else if (!strcmp(w[1], "barrier")) t_barrier(NT);
       else if (!strcmp(w[1], "once")) t_once();
       else if (!strcmp(w[1], "key")) t_key();
+      else if (!strcmp(w[1], "sem-intr") || !strcmp(w[1], "mutex-intr") || !strcmp(w[1], "cond-intr")) t_intr(w[1]);
       else if (!strcmp(w[1], "cond-signal")) t_cond(0);
       else if (!strcmp(w[1], "cond-broadcast")) t_cond(1);
       else printf("bad-op\n");
